@@ -137,6 +137,9 @@ func vStubNewSessionDiscovery(u *PacketUnderlay, encryptedMeta []byte, source se
 		return nil, nil, serveruser.Authentication{}, vTimeoutErr{}
 	}
 	m := vNondetBytes("oracle.meta", 32)
+	if vOracleScript != nil {
+		m, vOracleScript = vOracleScript, nil
+	}
 	vAssume(m[0] != 10 && m[0] != 11)
 	return &vOracleCipher{user: "mallory"}, m, serveruser.VNewAuthentication("mallory"), nil
 }
@@ -258,4 +261,35 @@ func vH_C01_stray_segment_for_closed_session() {
 	vAssume(et != stderror.PROTOCOL_ERROR && et != stderror.CRYPTO_ERROR) // the segment itself was well-formed and timely
 	vAssert(et == stderror.NETWORK_ERROR, "a data segment for a closed session is dropped and the loop reads on: it ends with the stream (network error), not because of the stray segment")
 	vAssert(conn.writes == 0, "nothing is written for a segment of a known, closed session")
+}
+
+
+// ---- H6.2b (UDP): a recorded datagram re-sent from another address is dropped ----
+//
+// One 72-byte datagram (metadata only) reaches a UDP server that has no
+// session for its source address.  The replay cache reports it (same bytes seen
+// from a different address), and it still decrypts as a new session - it is a
+// byte-exact copy of genuine traffic.  Whatever its type (open request, data,
+// ack - type and lengths concrete per case, every other field arbitrary), it is
+// dropped: nothing is passed on, nothing is sent, no session appears.
+func vH_C06_packet_replay() {
+	for _, proto := range [...]uint8{uint8(openSessionRequest), uint8(dataClientToServer), uint8(ackClientToServer), uint8(closeSessionRequest)} {
+		pc := &vFakePacketConn{in: [][]byte{make([]byte, 72)}}
+		u := &PacketUnderlay{baseUnderlay: *newBaseUnderlay(false, 1400, nil), conn: pc}
+		m := vNondetBytes("meta", 32)
+		m[0], m[1] = proto, 0
+		if proto >= 6 {
+			m[21], m[22], m[23], m[24] = 0, 0, 0, 0 // no padding, no payload
+		} else {
+			m[15], m[16], m[17] = 0, 0, 0 // session segment: payloadLen 0, suffixLen 0
+		}
+		vOracleScript = m
+		vDiscoveryOK = true
+		vDupSeen = false
+		seg, addr, err := u.readOneSegment() // vStubIsDuplicateFirst: the datagram IS reported as a replay
+		vOracleScript = nil
+		vAssert(err == nil, "a replayed datagram is not an underlay error")
+		vAssert(seg == nil && addr == nil, "a datagram the replay cache reports is dropped although it decrypts as a new session")
+		vAssert(pc.writes == 0 && u.SessionCount() == 0, "it draws no reply and opens no session")
+	}
 }
